@@ -65,3 +65,11 @@ add('C13', 'Hypothesis generated species x phase x attached-model lists x constr
     'Exploration only.',
     'Trusted: PiecewiseCovEffect values (C17) and -ln P from fresh model instances; at most one user-supplied GasPressureAdj, only on gas species.',
     'DESIGN.md 3/C13')
+add('C10', 'Hypothesis generated reference sets (constructed consistent / noisy, full-rank / rank-deficient) + append/pop/refit histories; oracles: reproduction, normal equations A^T r = 0, linear T-independent shift',
+    'Reference sets of 1-8 species over 1-5 descriptors (elements or another descriptor dictionary) are built so that the experimental enthalpies are either exactly reachable by a '
+    'composition-linear shift or perturbed by noise; after fitting (directly or through a history of append/extend/pop/remove/refit) every reference must be reproduced at the reference '
+    'temperature in the consistent case, the residual must be orthogonal to the composition matrix otherwise, uniquely determined offsets must equal the hidden ones, and for arbitrary target '
+    'compositions (unknown descriptors in any position) the shift of H and G must be -R T_ref sum(offset n) at every temperature, additive in composition, absent from S/Cv/Cp and exactly '
+    'removed by use_references=False. Exploration only.',
+    'Trusted: StatMech H/RT of the reference models (C01); exact reproduction only claimed for identical reference temperatures.',
+    'DESIGN.md 3/C10')
